@@ -232,7 +232,14 @@ def obs_mismatch(case):
         flat = np.zeros(case["n"], dtype=case["dt"])
         data = flat.tolist() if case["as_list"] else flat
         lens = list(case["lens"])
-        shape = {"list": lens, "shape": RaggedShape(lens), "tuple": (len(lens), lens)}[case["shape_as"]]
+        if case["shape_as"] == "shape-reused":
+            # the very RaggedShape object that already backs a correctly sized array
+            shape = RaggedShape(lens)
+            good = RaggedArray(np.zeros(sum(lens), dtype=case["dt"]), shape)
+            good.tolist()
+            shape = good._shape if case.get("via_array") else shape
+        else:
+            shape = {"list": lens, "shape": RaggedShape(lens), "tuple": (len(lens), lens)}[case["shape_as"]]
         return RaggedArray(data, shape).tolist()
     return observe(f)
 
@@ -257,7 +264,8 @@ def mismatch_case(draw, tier):
     if n == tot:
         n = tot + 1
     return {"lens": lens, "n": n, "dt": draw(st.sampled_from(["int64", "float64", "bool", "uint8"])),
-            "as_list": draw(st.booleans()), "shape_as": draw(st.sampled_from(["list", "shape", "tuple"]))}
+            "as_list": draw(st.booleans()), "shape_as": draw(st.sampled_from(["list", "shape", "tuple", "shape-reused"])),
+            "via_array": draw(st.booleans())}
 
 
 # ---------------------------------------------------------------- geometry object
